@@ -338,7 +338,43 @@ func runC19(c *eng.Ctx) {
 		})
 		c.Check(ok, "programmatic route: Config.Telemetry.Enabled exists and has a default", p.Pos(fn.Pos()), "NewDefaultConfig sets Telemetry.Enabled", "NewDefaultConfig no longer sets Telemetry.Enabled")
 	}
-	c.Floor(5)
+	// the switch, once set by the operator, is not overwritten: Config.Telemetry (whole) and TelemetryConfig.Enabled are
+	// written only where the defaults are built and where the configuration file / environment is read
+	{
+		telF := p.Field("server", "Config", "Telemetry")
+		enF := p.Field("server", "TelemetryConfig", "Enabled")
+		if telF == nil || enF == nil {
+			c.Unresolved("fields server.Config.Telemetry / server.TelemetryConfig.Enabled")
+		} else {
+			allowed := map[string]bool{"server.NewDefaultConfig": true}
+			// the parser: the function that reads the key telemetry.enabled
+			for _, fn := range p.Funcs {
+				eng.Instrs(fn, func(in ssa.Instruction) {
+					if call, ok := in.(*ssa.Call); ok && eng.CalleeRef(&call.Call) == viperPkg+".Viper.GetBool" {
+						if k := eng.Strip(call.Call.Args[len(call.Call.Args)-1]); eng.StrConst("telemetry.enabled")(k) {
+							allowed[ir.FuncKey(ir.Outermost(fn))] = true
+						}
+					}
+				})
+			}
+			n := 0
+			for _, f := range []*types.Var{telF, enF} {
+				for _, a := range eng.FieldAccesses(p, f) {
+					if !a.Write {
+						continue
+					}
+					if _, isStore := a.Use.(*ssa.Store); !isStore {
+						continue
+					}
+					n++
+					k := ir.FuncKey(ir.Outermost(a.Fn))
+					c.Check(allowed[k], "write of "+f.Name()+" in "+ir.FuncKey(a.Fn), c.Pos(a.Use), "written where defaults are built or the configuration is read", "the telemetry switch is overwritten outside configuration loading: an operator's `disabled` can be turned back on before Start tests it")
+				}
+			}
+			c.Check(n >= 2, "telemetry switch writers found", "", "defaults and parser", "the writers of Config.Telemetry.Enabled were not found")
+		}
+	}
+	c.Floor(7)
 
 	// shared key agreement (R15.6)
 	runConfigKeyAgreement(c, "R15.6")
